@@ -66,6 +66,9 @@ def shards(tier, seed):
         out.append(("sched", c, 1, 12 if tier == "quick" else 60, s, 300 if tier == "quick" else 3000))
     for s in split_seeds(seed * 1000 + 163, n):
         out.append(("procs", 8 if tier == "quick" else 320, s))
+    # (e) pause-and-race: a process forked from the initialising process performs B inside A's window
+    for i in range(len(PAUSE_PAIRS)):
+        out.append(("pause", i, tier))
     from .. import faultengine as F
     for c in chunk(list(range(len(F.CASES))), n):
         out.append(("faults", c, tier))
@@ -73,7 +76,8 @@ def shards(tier, seed):
 
 
 def min_required(tier):
-    return {"fault_runs_compared": 80, "equiv_calls_compared": 1200, "schedules": 3000, "process_histories": 60, "process_calls_recorded": 400}
+    return {"fault_runs_compared": 80, "equiv_calls_compared": 1200, "schedules": 3000, "process_histories": 60, "process_calls_recorded": 400,
+            "pause_runs": 50}
 
 
 def mp_store_world(scratch, name, contents, docs, pids, fmts):
@@ -332,7 +336,82 @@ def run_faults(case_idxs, tier):
     return res
 
 
+def _pst(pid, c):
+    return {"op": "store", "pid": pid, "content": c, "kind": "path"}
+
+
+def _ptag(pid, c):
+    return {"op": "tag", "pid": pid, "cid": ["of", c]}
+
+
+def _psm(pid, fmt, doc):
+    return {"op": "smeta", "pid": pid, "fmt": fmt, "doc": doc, "kind": "path"}
+
+
+# (start state, A in the parent, B in the forked child); pairs that no known finding touches
+PAUSE_PAIRS = [
+    ("A-unreferenced", [_pst(None, "A")], _ptag("p1", "A"), _ptag("p2", "A")),
+    ("empty", [], _pst("p1", "A"), _pst("p2", "A")),
+    ("p1,p2->A", [_pst("p1", "A"), _pst("p2", "A")], {"op": "delete", "pid": "p1"}, {"op": "delete", "pid": "p2"}),
+    ("p1->A", [_pst("p1", "A")], _pst("p2", "A"), _ptag("p3", "A")),
+    ("empty", [], _psm("p1", "f1", "d1"), _psm("p1", "f1", "d2")),
+    ("p1+doc", [_psm("p1", "f1", "d1")], _psm("p1", "f1", "d2"), {"op": "dmeta", "pid": "p1", "fmt": "f1"}),
+    ("empty", [], _pst("p1", "A"), _pst("p1", "B")),
+]
+
+
+def run_pause(idx, tier):
+    """(e) deterministic cross-process exclusion evidence, judged by outcomes + final state only."""
+    from .. import pauserace as PR
+    res = ShardResult()
+    sname, start, op_a, op_b = PAUSE_PAIRS[idx]
+    contents = {k: make_content(v["cseed"], v["size"]) for k, v in SPEC.items()}
+    docs = {k: make_content(v["cseed"], v["size"]) for k, v in DOCS.items()}
+    scratch = new_scratch("c16e")
+    cfg = dict(depth=3, width=2, algo="SHA-256", ns=DEFAULT_NS)
+    try:
+        for a, b, tag_ in ((op_a, op_b, "ab"), (op_b, op_a, "ba")):
+            sub = os.path.join(scratch, tag_)
+            os.makedirs(sub)
+            pr = PR.PauseRace(sub, start, a, b, contents, docs, ["p1", "p2", "p3"], [None, "f1"], cfg)
+            nsites = pr.count_sites()
+            res.count("pause_sites", nsites)
+            for site in range(nsites):
+                r = pr.run(site)
+                res.evaluations += 1
+                res.count("pause_runs")
+                res.distinct.add(repr((idx, tag_, site)))
+                if r.get("child_hung") or r.get("b") is None or "harness_error" in (r.get("b") or {}):
+                    if r.get("child_hung") == "unknown":
+                        res.inconclusive.append("pause-and-race: the child did not finish within 60 s and is not parked in a wait of the store")
+                    elif r.get("child_hung"):
+                        res.violation({"symptom": "worker-hang", "engine": "pause-and-race", "calls": sorted([op_shape(a), op_shape(b)]), "start": sname},
+                                      {"engine": "C16e", "pair": idx, "order": tag_, "site": site, "result": jsonable(r)})
+                    else:
+                        res.inconclusive.append(f"pause-and-race child failed: {r.get('b')}")
+                    continue
+                if r["child_finished_during_pause"]:
+                    res.count("child_completed_inside_the_window")
+                elif r["child_finished_during_pause"] is False:
+                    res.count("child_waited_for_the_parent")
+                if not r["in_spec"]:
+                    res.violation({"symptom": "mode-outcome-differs" if not r["outcomes_in_spec"] else "mode-state-differs",
+                                   "engine": "pause-and-race", "calls": sorted([op_shape(a), op_shape(b)]), "start": sname,
+                                   "child_ran_inside_the_window": bool(r["child_finished_during_pause"])},
+                                  {"engine": "C16e", "pair": idx, "order": tag_, "site": site, "result": jsonable(r)})
+            if len(res.samples) < 1:
+                res.sample({"part": "e", "pair": sname, "A": op_shape(a), "B": op_shape(b), "sites": nsites})
+    except Inconclusive as inc:
+        res.inconclusive.append(str(inc))
+    finally:
+        rmtree(scratch)
+        clear_atexit_tmp_handlers()
+    return res
+
+
 def run_shard(kind, *args):
+    if kind == "pause":
+        return run_pause(*args)
     if kind == "equiv":
         return run_equiv(*args)
     if kind == "faults":
